@@ -6,6 +6,9 @@ NRM-2 right shifts: the chain has size(operand) + steps steps for every operand 
 WR-6  the carry buffer is written before a middle / final step reads it on every feasible path
 WR-1/WR-2 on the C08 files: every limb of the selected result column is produced, other columns are never addressed
 BK-6  the AVX normalisation step kernels apply the digit / carry helpers per lsh branch as often as the reference kernels
+DC-1  digit / carry pairing in the scalar step kernels (i64 and i128, reference, AVX scalar tails, encoding): a carry `get_carry(b, x, d)` takes the digit d = get_digit(b, x)
+      of the same value and radix; the value a digit was extracted from is never carried on by a plain `x >> b` (the balanced carry is (x - digit) >> b: a plain shift is one
+      too small whenever the digit is negative); no computed carry is dropped (each get_carry result reaches a stored value)
 Not decided: the digit / carry arithmetic itself (balanced digits, rounding), cross-radix accumulation, integer encoding / decoding.
 """
 from . import facts
@@ -16,6 +19,87 @@ C08_FILES = ("reference/vec_znx/normalize.rs", "reference/vec_znx/shift.rs", "re
 
 def in_c08(f):
     return any(f.file.endswith(x) for x in C08_FILES)
+
+
+DIG = ("get_digit_i64", "get_digit_i128")
+CAR = ("get_carry_i64", "get_carry_i128")
+
+
+def dc1(p, res):
+    from .cfg import Flow
+    from .sym import Sym
+    n = 0
+    for f in sorted(p.fns.values(), key=lambda x: x.uid):
+        if not f.blocks or not f.uid.startswith(("poulpy_cpu_ref", "poulpy_cpu_avx", "poulpy_hal")):
+            continue
+        calls = [(bi, t) for bi, t in f.calls() if (f.callee_def(t) or {}).get("n") in DIG + CAR]
+        if not calls:
+            continue
+        flow = Flow(f)
+        sym = Sym(f, flow)
+        digs = {bi: (sym.operand(t["a"][0]).key(), sym.operand(t["a"][1]).key()) for bi, t in calls if (f.callee_def(t) or {}).get("n") in DIG and len(t["a"]) == 2}
+        # digits written to memory (`*x = get_digit(..)`) and read back
+        stores = []
+        for blk in f.blocks:
+            for st in blk["s"]:
+                if st[0] == "A" and len(st[1]) > 1 and st[2]["k"] == "Use":
+                    for r in flow.op_roots(st[2]["o"][0]):
+                        if r[0] == "call" and r[1] in digs:
+                            stores.append((sym.place(st[1]).key(), r[1]))
+        n += 1
+        bad = []
+        cars = {}
+        for bi, t in calls:
+            nm = (f.callee_def(t) or {}).get("n")
+            if nm not in CAR or len(t["a"]) != 3:
+                continue
+            cars[bi] = t
+            b, x = sym.operand(t["a"][0]).key(), sym.operand(t["a"][1]).key()
+            src = [r[1] for r in flow.op_roots(t["a"][2]) if r[0] == "call" and r[1] in digs]
+            if not src:
+                k3 = sym.operand(t["a"][2]).key()
+                src = [bj for kk, bj in stores if kk == k3]
+            if not src:
+                res.undec("DC-1", "%s: the digit handed to %s is not a get_digit result" % (f.pretty, nm))
+            elif not any(digs[bj] == (b, x) for bj in src):
+                bad.append(("carry-of-other-value", "%s(b, x, d) receives a digit extracted from another value or with another radix than (b, x)" % nm, t["l"]))
+        for blk in f.blocks:
+            for st in blk["s"]:
+                if st[0] == "A" and st[2]["k"] == "Bin" and st[2].get("op") in ("Shr", "ShrUnchecked"):
+                    l, r = sym.operand(st[2]["o"][0]).key(), sym.operand(st[2]["o"][1]).key()
+                    if any(x == l and b == r for b, x in digs.values()):
+                        bad.append(("plain-shift-of-digit-source", "a value whose digit is extracted with get_digit(b, x) is carried on as x >> b: the carry of a negative digit is one too small", None))
+        # every computed carry is used: it reaches a store through arithmetic
+        used = set()
+
+        def deps(op, depth=0):
+            out = set()
+            for r in flow.op_roots(op):
+                if r[0] == "call":
+                    out.add(r[1])
+                elif r[0] == "bin" and depth < 6:
+                    for o in f.blocks[r[1]]["s"][r[2]][2]["o"]:
+                        out |= deps(o, depth + 1)
+            return out
+        for bi2, blk in enumerate(f.blocks):
+            for st in blk["s"]:
+                if st[0] == "A" and (len(st[1]) > 1 or st[1][0] == 0) and st[2]["k"] in ("Use", "Bin", "Cast"):
+                    for o in st[2]["o"]:
+                        used |= deps(o)
+            t = blk["t"]
+            if t and t["k"] == "Call":
+                for o in t["a"]:
+                    used |= deps(o)
+        # a carry feeding another carry/digit call is used if that call is used; the closure returns nothing, so stores are the only sinks
+        for bi in cars:
+            if bi not in used and not f.blocks[bi]["t"]["d"][1:] and f.blocks[bi]["t"]["d"][0] != 0:
+                bad.append(("carry-dropped", "the result of a get_carry call reaches no stored value", cars[bi]["l"]))
+        if bad:
+            for kind, msg, line in bad:
+                res.bad("DC-1", f.pretty, kind, "%s: %s" % (f.pretty, msg), site=f.where(line) if line else f.where())
+        else:
+            res.ok("DC-1", {"fn": f.pretty, "digits": len(digs), "carries": len(cars)})
+    return n
 
 
 def run(res, tier):
@@ -31,7 +115,8 @@ def run(res, tier):
     res.rule("WR-1", "overwrite-type shape functions of the C08 files cover every limb of the result column")
     res.rule("WR-2", "every accessor on operand X of the C08 files uses column X_col")
     res.rule("BK-6", "AVX normalisation step kernels: (get_digit, get_carry) applications per lsh branch equal those of the *_ref twin")
-    res.assumptions = ["the step kernels compute balanced digit / carry (digit = sign-extended low bits, carry = (x - digit) >> b): not decided",
+    res.rule("DC-1", "scalar step kernels: get_carry(b, x, d) takes d = get_digit(b, x); no plain x >> b of a digit source; no computed carry is dropped")
+    res.assumptions = ["get_digit / get_carry themselves compute the balanced digit / carry (digit = sign-extended low bits, carry = (x - digit) >> b): not decided",
                        "cross-radix accumulation and encoding / decoding are arithmetic and not decided"]
     cfgs = ["avx-dev"] if tier == "quick" else ["avx-dev", "ref-dev"]
     for cfg in cfgs:
@@ -53,4 +138,6 @@ def run(res, tier):
             res.floor("BK-6", "normalisation kernel twins", nb, 8)
         else:
             res.ok("BK-6", {"note": "AVX crate not part of this configuration"})
+        nd = dc1(p, res)
+        res.floor("DC-1", "scalar digit / carry kernels", nd, 60, ref_min=45)
         res.fn_count += n1 + n2 + n6 + n_ow
